@@ -160,3 +160,7 @@ Theorem c16_u256_eq : instr_spec_g (std_ops_of "u256::eq_unsafe") 16 (fun _ => t
   (fun xs => [bool01 (forallb (fun k => nz xs k =? nz xs (8 + k))%Z (seq 0 8))]).
 Proof. exact u256_eq. Qed.
 Print Assumptions c16_u256_eq.
+Theorem c16_u256_sub : instr_spec_g (std_ops_of "u256::sub_unsafe") 16 g16 no_pre
+  (fun xs => limbs256 ((V256 xs 8 - V256 xs 0) mod 2 ^ 256)).
+Proof. exact u256_sub. Qed.
+Print Assumptions c16_u256_sub.
